@@ -19,6 +19,15 @@ CLAIMED = {
  "C14": ("post-dominance and ordering of calls in the transcript methods' CFGs, value-identity dataflow, write-effect analysis (F7, W1)",
          "Static decision, for all call sequences, of: appends unconditional and complete; challenge = hash of everything pending, digest before reset, buffer cleared after hashing, same little-endian-reduced scalar re-absorbed and returned; canonical encodings absorbed; protocol label first; labels/messages never modified. SHA-256, the reduction arithmetic and collision resistance are not decided.",
          "4 C14, 3.2 F7"),
+ "C06": ("call-graph who-may-call, must-pass-through on the CFG specialised to trusted=false, canonical-only decoder rule, finite-outcome evaluation of the Legendre decision (D1-D4, D7, W1)",
+         "Static decision, for all inputs and paths, that untrusted decoding can succeed only after: exact length, canonical decoding of x with its error propagated, on-curve test, subgroup test on that same x accepting exactly Legendre=+1 of 1-a*x^2, and (uncompressed) byte equality of the recomputed canonical y; that no untrusted entry point reaches an unchecked/reducing decoder; that decoders leave their buffer alone. Found and fixed DEF-1. Square-root/Legendre arithmetic not decided.",
+         "4 C06, 3.3"),
+ "C10": ("writer/reader layout extraction and comparison, EOF-probe rule, error-discipline must-pass rule, who-may-call, finite-outcome evaluation of the canonical-scalar decision (D1, D4-D7, W1)",
+         "Static decision, for all inputs, reader chunkings and writer fault points, of: reader and writer agree on field order/count/encoding and with the spec order and log2(VectorLength); every point via the validating decoder, the scalar via the canonical one accepting exactly < r; trailing data rejected for every conforming reader (count constrained at the EOF probe); every error on read and write paths tested and propagated; Write does not modify the proof. Found and fixed DEF-3. Value-level round trip not decided.",
+         "4 C10, 3.3"),
+ "C16": ("write-effect analysis of every scalar decoder, finite-outcome evaluation of the canonical and SetBigInt decisions (W1, D4)",
+         "Static decision, for all byte strings, that no decoder writes the slice it is given (found and fixed DEF-2), that the canonical decoder accepts exactly Cmp(value,r) = -1 on the integer built from the input, and that SetBigInt's zero/direct shortcuts are taken only where they agree with reduction (all 9 outcomes). Mod/Montgomery arithmetic and byte-order tables (K4, pending) not decided here.",
+         "4 C16, 3.1, 3.3 D4"),
 }
 NA_REASON = "check under construction (DESIGN.md 9.5 build order); no verdict claimed yet"
 
